@@ -1521,6 +1521,9 @@ type ServerSession struct {
 	// via jsonrpc2.Connection.Cancel to avoid deadlocking on the jsonrpc2
 	// drain. See modelcontextprotocol/go-sdk#1160.
 	listenIDs []jsonrpc.ID
+	// closing is set by Close when it cancels the listen handlers: a listen
+	// request dispatched after that would never be cancelled.
+	closing bool
 }
 
 func (ss *ServerSession) updateState(mut func(*ServerSessionState)) {
@@ -1974,8 +1977,14 @@ func (ss *ServerSession) handle(ctx context.Context, req *jsonrpc.Request) (any,
 	// avoid deadlocking on the jsonrpc2 drain.
 	if req.Method == methodSubscriptionsListen {
 		ss.mu.Lock()
-		ss.listenIDs = append(ss.listenIDs, req.ID)
+		closing := ss.closing
+		if !closing {
+			ss.listenIDs = append(ss.listenIDs, req.ID)
+		}
 		ss.mu.Unlock()
+		if closing {
+			return nil, fmt.Errorf("%w: subscriptions/listen", jsonrpc2.ErrServerClosing)
+		}
 	}
 
 	res, err := handleReceive(ctx, ss, req)
@@ -2088,6 +2097,7 @@ func (ss *ServerSession) Close() error {
 	ss.mu.Lock()
 	ids := ss.listenIDs
 	ss.listenIDs = nil
+	ss.closing = true
 	ss.mu.Unlock()
 	for _, id := range ids {
 		ss.conn.Cancel(id)
